@@ -110,6 +110,7 @@ PROFILES = {
     "again": dict(BASE, ntasks=(2, 7), nseg=(2, 4), nleaf=(1, 4), p_rep=0.35, p_reuse=0.35, p_lazy=0.15, p_lazyfail=0.05, p_share=0.1, p_reyield=0.2,
                   flush_modes=("ok", "ok", "itemerr"), p_catch=0.4, p_errleaf=0.05),
     "nestflush": dict(BASE, ntasks=(2, 7), nkinds=(2, 3), bases=(0, 1), nest=True, p_item=0.55, p_task=0.3, p_share=0.1, p_catch=0.3, ncalls=2),
+    "cancelsession": dict(BASE, ntasks=(3, 7), nkinds=(1, 2), bases=(0, 1), p_cancelb=0.45, p_catch=0.6, p_share=0.1, nseg=(2, 4), ncalls=3),
     "cancel": dict(BASE, ntasks=(3, 8), nkinds=(1, 3), bases=(0, 1), p_cancelb=0.35, p_catch=0.5, p_share=0.1, nseg=(2, 4)),
     "kill": dict(BASE, ntasks=(3, 8), p_fail=0.4, p_catch=0.5, p_share=0.15, ctx_types=("async", "override"), p_ctx=0.4, nvars=1, nseg=(2, 4)),
     "helpers": dict(BASE, ntasks=(3, 9), nleaf=(1, 4), p_task=0.55, p_item=0.35, p_via=0.6, nkinds=(1, 2), p_catch=0.3, p_raise=0.05),
